@@ -75,3 +75,20 @@ Theorem C04_rect_levels :
     rectangular n v -> k < n -> level_uniform (elements_at_depth k v).
 Proof. exact rect_level_uniform. Qed.
 Print Assumptions C04_rect_levels.
+
+(* ---- any number of fields: flat n-ary outer splitter [f0, ..., fk] and inner splitter (f0, ..., fk),
+   every field with its own container dimension >= 1 (None = plain list, dimension 1), any number of
+   them nested, in any position.  Each field contributes its elements at its depth. *)
+Theorem C04_outer_n :
+  forall (f0 : field) (fs : list field),
+    Forall field_ok (f0 :: fs) ->
+    outer_n_ok (map op_of (f0 :: fs)) (splitN Outer f0 fs).
+Proof. exact splitN_outer. Qed.
+Print Assumptions C04_outer_n.
+
+Theorem C04_inner_n :
+  forall (f0 : field) (fs : list field),
+    Forall field_ok (f0 :: fs) ->
+    inner_n_ok (map op_of (f0 :: fs)) (splitN Inner f0 fs).
+Proof. exact splitN_inner. Qed.
+Print Assumptions C04_inner_n.
